@@ -35,7 +35,7 @@ def main():
                         "first": first, "wall_s": round(time.time() - t0, 1)}
         json.dump(m, open(mf, "w"), indent=1)
         n += 1
-        ok = r.returncode == 1
+        ok = r.returncode == 1 or (m.get("expected_uncaught") and r.returncode == 0)
         print("%s: %s exit=%d %.0fs %s" % (m["id"], m["property"], r.returncode,
                                            time.time() - t0, "" if ok else "** NOT CAUGHT **"))
         if not ok:
